@@ -18,17 +18,17 @@ type budgetExceeded struct{ calls, budget int }
 
 // traceApplier wraps the real applier, records apply events and checks T1-T6 online.
 type traceApplier struct {
-	inner     protocol.OperationApplier
-	budget    int
-	calls     int
-	okCount   int
-	created   bool
-	deact     bool
-	consumedR map[string]bool
-	consumedU map[string]bool
+	inner        protocol.OperationApplier
+	budget       int
+	calls        int
+	okCount      int
+	created      bool
+	deact        bool
+	consumedR    map[string]bool
+	consumedU    map[string]bool
 	fullT, fullN uint64 // coordinates of the last applied create / full operation
-	problems  []string
-	events    []string
+	problems     []string
+	events       []string
 }
 
 func newTraceApplier(inner protocol.OperationApplier, nOps int) *traceApplier {
